@@ -61,7 +61,7 @@ func collectEffects(p *core.Prog, pi *poolInfo, f *ssa.Function, r, other ssa.Va
 			if rc, arg := pi.isRedeemCall(x); rc != nil && arg == other {
 				guard := false
 				for _, c := range core.CondsAt(x.Block()) {
-					if c.Sense && fieldLoadOf(c.Value, other, "wantsRedeemOnMerge") {
+					if c.Sense && fieldLoadOf(c.Value, other, pooledMark) {
 						guard = true
 					}
 				}
